@@ -172,20 +172,7 @@ theorem C19_writer_limits (q : Qos) (hq : QosOk q) (evs : List Ev) :
     | cons e es ih =>
       intro s hs
       have h1 := step_winv s e hs
-      have hq1 : (step s e).1.qos = s.qos := by
-        cases e with
-        | write k v ts now =>
-          simp only [step, methodWrite]
-          split
-          · split
-            · split <;> rfl
-            · simp [entOut, entWrite_qos, evict]
-          · simp [entOut, entWrite_qos]
-        | acknack rid base set count now => simp only [step, onAcknack]; rw [processPending_qos]
-        | tick now =>
-          simp only [step, tick, tickRest]
-          rw [(poke_frame _ now).1, processPending_qos, (checkTimeout_frame _ now).1, (removeStale_frame s now).1]
-        | matchReader rid rel tl => simp [step, matchReader]
+      have hq1 : (step s e).1.qos = s.qos := step_qos s e
       exact ⟨(ih _ h1).1, by simp only [run]; rw [(ih _ h1).2, hq1]⟩
   have h0 : WInv (St.init q) := by
     refine ⟨hq, ⟨?_, ?_, ?_⟩, ?_⟩ <;> intro m _ <;> simp [St.init, totalSamples, LenOk]
